@@ -62,7 +62,16 @@ CHECKS = {
             "with IEEE replay of the probability comparisons, twice: with scripted operators (every wrapper: copy-and-return, every combination of returned-object "
             "identity, swap, fitness-assigning, staticLimit) and END TO END through the composed model (Core/VariationOps.lean: the model operators compute the "
             "offspring genomes from the replayed operator tape; all six representations, staticLimit on len / sum / height); the statement is evaluated as an oracle "
-            "on the real objects (snapshots, identity, shared mutable state, empty invalid fitness).",
+            "on the real objects (snapshots, identity, shared mutable state, empty invalid fitness). tools.History (Core/History.lean: update, decorator, getGenealogy on "
+            "the same heap, history_index as an instance attribute that clones carry forward): C02.history_decorator_meets_contract (history.decorator around ANY "
+            "pair meeting OpContract meets it again), varAnd_history_ops / varOr_history_ops (+_total): all five clauses with History-decorated library operators, "
+            "history_entries_fresh (genealogy_history holds freshly allocated copies, nothing else is written), history_index_monotone (indices index+1, index+2, ... "
+            "in call order), genealogy_tree_parents, history_parents_below (no cycle while every index comes from this history), getGenealogy_submap / _terminates / "
+            "_closed (closed under parents without a depth bound; with a bound only approximately, as the docstring says) and getGenealogy_cyclic_never_returns (an "
+            "individual carrying an index of ANOTHER history can become its own ancestor: RecursionError); replayed (protocol op `hist`) on multi-generation varAnd/varOr "
+            "histories with one History object: offspring, history_index, genealogy_tree/_history content and identity, getGenealogy answers. Two more clause-carrying "
+            "streams: fitness classes with INTEGER weights and exact integer objectives beyond 2**53, and call histories on ONE class whose gene structure changes "
+            "(atomic -> nested lists -> atomic) with one toolbox reused.",
             TB + "that the operator MODELS compute what deap.tools / deap.gp compute is the correspondence of C09/C10/C11 and of the composed stream here (OpContract itself "
             "holds for every lifted function, so it does not depend on it); user-registered operators outside the library are covered relative to OpContract (checked "
             "on every recorded call); a = b (the same object passed twice to mate) is outside the lifting's faithful domain and never arises (two different clones are "
@@ -227,13 +236,22 @@ CHECKS = {
             "Published-definition models (Core/Bench*.lean, MovingPeaks.lean) are diffed against deap.benchmarks on dimensions 0..30, 1..7 objectives, "
             "documented ranges + optima, exhaustive bit strings <= 9/12 bits, recording wrapped functions, the three moving-peaks scenarios through 50 "
             "changes on a recorded tape, worlds of 1-3 MovingPeaks objects built from one shared pfunc list / scenario dictionary through interleaved histories, "
-            "decorator setter histories with fresh / re-used / in-place refilled argument objects, and the quality indicators of benchmarks.tools; an independent numpy/Fraction transcription of every formula and the front/decorator/moving-peaks clauses are the oracle.",
+            "decorator setter histories with fresh / re-used / in-place refilled argument objects, and the quality indicators of benchmarks.tools; an independent numpy/Fraction transcription of every formula and the front/decorator/moving-peaks clauses are the oracle.  "
+            "Translator tie (second, tighter link between model and source): on every run harness/py2lean.py re-reads deap/benchmarks/{__init__,gp,movingpeaks,binary}.py, renders 45 functions "
+            "(all 32 real-valued functions of __init__.py except rand, the 8 gp targets, cone / sphere / function1, trap / inv_trap) as Lean definitions Gen.<f> polymorphic in RealLike, and the kernel re-checks "
+            "the committed theorems Gen.<f>_eq_model (48: over R the regenerated definition equals the hand-written model on ALL inputs, `none` = the inputs the code rejects; DTLZ1-7 for every "
+            "objective count >= 1 resp. >= 2, shekel for every a, c) and Gen.<f>_eq_model_poly (23: equal as terms at every scalar, which pins the operation order the Float correspondence uses); "
+            "any change of a translated formula - below the 1e-9 tolerance or outside the sampled region alike - breaks a proof obligation before an input is sampled.",
             TB + "partial: theorems are over the reals/rationals; equality of each float function with its definition is a 1e-9 tolerance correspondence "
             "(IEEE rounding, libm and CPython's compensated sum are not modelled); optima documented to a few decimals (schwefel, three himmelblau minima, "
             "h1, shekel) are numeric tests; numpy.linalg.inv is a parameter with its inverse contract (likewise scipy's cdist for igd, replaced by a numpy stand-in where scipy is absent); a tape must be long enough and well typed for changePeaks to be defined; "
             "instance independence is a theorem of the value-semantics model, the absence of shared mutable state in the implementation is checked by the mpworld stream, not proved; "
-            "the quality indicators, globalMaximum / maximums / offlineError are outside the statement and covered by model-vs-implementation comparison only.",
-            "Lean 4 proofs over published-definition models + tolerance correspondence (Float instance) + independent reference-formula oracle"),
+            "the quality indicators, globalMaximum / maximums / offlineError are outside the statement and covered by model-vs-implementation comparison only; "
+            "translator tie: the rendering rules and the prelude of harness/py2lean.py / Core/GenPrelude.lean are trusted, parameters are typed by a signature table (individual = list of floats: a change that only "
+            "matters for another representation, e.g. numpy `+`, is invisible to it), exceptions of float operations are not rendered, and rand, the chuang / royal-road functions, bin2float, the decorator classes, "
+            "MovingPeaks and the quality indicators are outside the sub-language (refused, listed per run in evidence/C20.translated.json) - they stay tied by correspondence only.",
+            "Lean 4 proofs over published-definition models + tolerance correspondence (Float instance) + independent reference-formula oracle "
+            "+ translator tie (definitions regenerated from source, kernel-checked equal to the model)"),
     "C08": ("full",
             "Lean theorems (C08.never_raises, mirror(+_index), sorted_desc, keys_sorted, size_le, worst_monotone, members_shown, copies_fresh, copies_frame, "
             "pairwise_dissimilar (needs only a symmetric similarity), all_kept_while_room (reflexive+symmetric), best_of_seen(+_gt) (additionally: similar shown "
@@ -458,7 +476,11 @@ CHECKS = {
             "identity-aware dump for all bases, attribute graphs with aliasing, protocols 0..5, same and fresh interpreter, namespace histories "
             "(create / re-create with the same keyword names and other values / delete / dump / load, replayed by Heap.nsRun/dumpP/loadP and compared by "
             "identity-free class descriptions and final bindings) and trees over primitive sets with renamed arguments (Heap.Gp); the statement (equal "
-            "abstraction, equivalent class, no shared mutable object, mutation in both directions) is an oracle on the real objects.",
+            "abstraction, equivalent class, no shared mutable object, mutation in both directions) is an oracle on the real objects. tools.initRepeat / initCycle / "
+            "initIterate (Core/Init.lean: the generator expressions as call sequences of side-effecting functions): initRepeat_calls (func called exactly n times, results "
+            "in call order), initCycle_calls (n passes over the function sequence, n*len results), initIterate_spec, initRepeat_fresh_attrs (consecutive individuals built "
+            "from a creator class: items = the calls' results in order, per-instance attributes fresh: composition with fresh_attrs); replayed (protocol op `init`) with "
+            "counting closures on every base (list, array b/i/d, ndarray, set, dict).",
             TB + "partial: that CPython's copy/pickle/metaclass machinery dispatches to the modelled hooks (e.g. __reduce_ex__ precedence, F11; __slots__/__getstate__, F15) "
             "is runtime behaviour only the correspondence sees; so are the pickle protocols, the fresh interpreter and the picklability of toolbox aliases "
             "(no theorem speaks of them); acyclic graphs; pickle model is a tree (internal sharing checked by oracle only); dtype of an empty ndarray is not content.",
